@@ -471,6 +471,9 @@ func (eng *Engine) initValue(e *Env, s *ESel) (tv, error) {
 
 // locationTags over-approximates the tags a modifies-location of a callee can touch.
 func (eng *Engine) locationTags(g *Gen, ct *Contract, c *ssa.CallCommon, loc string) ([]string, bool) {
+	if strings.TrimSpace(loc) == "fresh-objects" {
+		return nil, true // any heap tag
+	}
 	// Build a typing environment from the callee signature only.
 	fn := c.StaticCallee()
 	if mc, ok := c.Value.(*ssa.MakeClosure); ok {
